@@ -65,10 +65,9 @@ impl<'a, W: Write<Error = E>, E: Error> Writer<'a, W, E> {
     }
 
     pub(crate) fn is_dirty(&self) -> bool {
-//@ requires self.wf(),
 //@ ensures
 //@     // C13: a line break is needed iff something was written and it did not end with one
-//@     r == (self.out().len() > 0 && self.out().last() != 0x0A),   // [C13]
+//@     self.wf() ==> r == (self.out().len() > 0 && self.out().last() != 0x0A),   // [C13]
         self.dirty
             && (self.last_bytes[0] != codes::CARRIAGE_RETURN
                 || self.last_bytes[1] != codes::LINE_FEED)
@@ -84,7 +83,8 @@ impl<'a, W: Write<Error = E>, E: Error> Writer<'a, W, E> {
 //@     r is Ok ==> final(self).errs() == old(self).errs(),   // [C14]
 //@     r is Err ==> final(self).errs() > old(self).errs(),   // [C14]
 //@     r is Ok ==> final(self).evs().len() >= old(self).evs().len()
-//@         && final(self).evs().subrange(0, old(self).evs().len() as int) == old(self).evs(),
+//@         && final(self).evs().subrange(0, old(self).evs().len() as int) == old(self).evs()
+//@         && (forall|i: int| 0 <= i < old(self).evs().len() ==> #[trigger] final(self).evs()[i] == old(self).evs()[i]),
 //@ ---
 //@ let ghost text0 = text.spec_bytes();
 //@ let ghost out0 = self.out();
@@ -161,6 +161,9 @@ impl<'a, W: Write<Error = E>, E: Error> Writer<'a, W, E> {
         }
 //@ proof {   // [C13]
 //@     if text.spec_bytes().len() == 0 { assert(lf_to_crlf(text.spec_bytes()) =~= Seq::<u8>::empty()); }
+//@     assert forall|i: int| 0 <= i < evs0.len() implies #[trigger] self.evs()[i] == evs0[i] by {
+//@         assert(self.evs().subrange(0, evs0.len() as int)[i] == self.evs()[i]);
+//@     }
 //@ }
         Ok(())
     }
@@ -171,6 +174,8 @@ impl<'a, W: Write<Error = E>, E: Error> Writer<'a, W, E> {
 //@     final(self).fin_evs() == old(self).fin_evs(), final(self).fin_errs() == old(self).fin_errs(), final(self).base == old(self).base,
 //@     // C13: as write_str, followed by one line break
 //@     r is Ok ==> final(self).wf() && final(self).out() == old(self).out() + lf_to_crlf(text.spec_bytes()) + seq![0x0Du8, 0x0Au8],   // [C13,~C06,C14,~C15]
+//@     r is Ok ==> final(self).evs().len() >= old(self).evs().len()
+//@         && (forall|i: int| 0 <= i < old(self).evs().len() ==> #[trigger] final(self).evs()[i] == old(self).evs()[i]),
 //@     r is Ok ==> final(self).errs() == old(self).errs(),   // [C14]
 //@     r is Err ==> final(self).errs() > old(self).errs(),   // [C14]
         // text can contain line feeds, they have to be converted as in write_str
@@ -286,9 +291,10 @@ impl ErrorType for EmptyWriter {
 //@ /// command handlers, `Cli::write` closures, derive-generated help printers)
 //@ #[verifier::prophetic]
 //@ pub open spec fn writer_api_only<W: Write<Error = E>, E: Error>(w: &mut Writer<'_, W, E>) -> bool {
-//@     &&& final(w).wf() && final(w).base == w.base
+//@     &&& final(w).base == w.base
 //@     &&& final(w).fin_evs() == w.fin_evs() && final(w).fin_errs() == w.fin_errs()
 //@     &&& final(w).errs() >= w.errs()
-//@     // the sink log only grows
-//@     &&& final(w).evs().len() >= w.evs().len() && final(w).evs().subrange(0, w.evs().len() as int) == w.evs()
+//@     // as long as no sink operation failed the Writer stays well-formed and the sink log only grows
+//@     &&& final(w).errs() == w.errs() ==> final(w).wf() && final(w).evs().len() >= w.evs().len()
+//@         && (forall|i: int| 0 <= i < w.evs().len() ==> #[trigger] final(w).evs()[i] == w.evs()[i])
 //@ }
